@@ -583,3 +583,66 @@ def statically_consistent(eff) -> bool:
 
     go(eff)
     return len(targets) == len(set(targets)) and not (added & deleted)
+
+
+# ------------------------------------------------------------------------------------------
+# plan worlds and steered random walks (C04, C10, C15, C16)
+# ------------------------------------------------------------------------------------------
+def gen_plan_world(rng, numeric=True, n_actions=None, forall=True, when=True, max_arity=2) -> W:
+    """a world whose actions have simple (mostly satisfiable) preconditions and statically consistent effects"""
+    w = gen_world(rng, numeric=numeric, max_arity=max_arity, n_objs=rng.randint(3, 4))
+    acts = []
+    tries = 0
+    n_actions = n_actions or rng.randint(3, 5)
+    while len(acts) < n_actions and tries < 60:
+        tries += 1
+        params = gen_params(rng, w)
+        pre = ["and"]
+        for _ in range(rng.choice([0, 1, 1, 2])):
+            lf = gen_leaf(rng, w, params, numeric=numeric and rng.random() < 0.5, equality=True)
+            if lf:
+                pre.append(lf)
+        eff = gen_effect(rng, w, params, when=when, forall=forall, numeric=numeric, n=rng.randint(1, 3), use_constants=0.1)
+        if len(eff) > 1 and statically_consistent(eff):
+            acts.append({"name": f"act{len(acts)}", "params": params, "pre": pre, "eff": eff})
+    w.actions = acts
+    return w
+
+
+def steered_walk(rng, wm, dom_m, st0, length, p_invalid=0.3, calls_cache=None):
+    """a plan as a random walk steered by the reference model.
+    returns list of (action, call, applicable?, pre_state, post_state) ; post = pre when not applicable.
+    Steps whose model evaluation leaves the quantifier (undefined fluent, inconsistent effects) are never chosen."""
+    steps = []
+    st = st0
+    all_calls = calls_cache if calls_cache is not None else {}
+    if not all_calls:
+        for an, act in dom_m.actions.items():
+            all_calls[an] = model.type_correct_calls(wm, act)
+    for _ in range(length):
+        want_invalid = rng.random() < p_invalid
+        cands = []
+        names = list(dom_m.actions)
+        rng.shuffle(names)
+        for an in names:
+            cs = all_calls[an][:]
+            rng.shuffle(cs)
+            for call in cs[:6]:
+                act = dom_m.actions[an]
+                try:
+                    nxt = model.successor(wm, act, call, st)
+                    margins = model.cmp_margins(wm, act.pre, st, model.binding(act, call)) + \
+                        model.cmp_margins(wm, act.eff, st, model.binding(act, call))
+                except (model.Outside, model.Inconsistent):
+                    continue
+                from fractions import Fraction as _F
+                if any(0 < m < _F(1, 1000) for m in margins):
+                    continue
+                cands.append((an, call, nxt))
+        if not cands:
+            break
+        pick = [c for c in cands if (c[2] is None) == want_invalid] or cands
+        an, call, nxt = rng.choice(pick)
+        steps.append((an, list(call), nxt is not None, st, nxt if nxt is not None else st))
+        st = nxt if nxt is not None else st
+    return steps
